@@ -157,7 +157,7 @@ def run(ctx):
             for sig, what, detail in judge(c, results[c["id"]]):
                 rep.add(c, sig, what, detail)
 
-    A.pipeline(ctx, "MpiOpGen.tla", jobs, process, par=len(jobs) if quick else 8, timeout=900 if quick else 1700)
+    A.pipeline(ctx, "MpiOpGen.tla", jobs, process, par=len(jobs) if quick else 8, timeout=1700)
     ctx.cov["cases_by_kind_and_support"] = bk
     ctx.cov["operator_type_pairs"] = len(pairs)
     ctx.cov["elements_reduced"] = tot["elems"]
